@@ -198,14 +198,14 @@ Print Assumptions c09_fixpoint_partial.
 Theorem c09_fixpoint_resolver_partial : forall (U : Resolver.universe) W dq0 scheds S,
   ResolveSpec.envelope_b U W = true -> Resolver.resolve U W dq0 scheds = Ok S ->
   (forall j, In j S -> LockFixpointResolver.lockable (nth j U Resolver.dummy_pkg)) ->
-  let UL := LockFixpointResolver.lock_universe U dq0 in
-  let member := LockFixpointResolver.cand_at U dq0 in
-  let L := LockFixpointResolver.lock_world U dq0 S in
   ResolveSpec.Closed U W (ResolveTheorems.pkgs_of U S) /\
-  L = lock_of (List.map member S) /\
-  ResolveSpec.envelope_b U L = true /\
-  (forall j k', In j S -> In k' UL -> admitted UL (lock_entry_of (member j)) k' -> k' = member j) /\
-  (forall scheds' S', Resolver.resolve U L dq0 scheds' = Ok S' -> forall j, In j S' <-> In j S).
+  LockFixpointResolver.lock_world U dq0 S = lock_of (List.map (LockFixpointResolver.cand_at U dq0) S) /\
+  ResolveSpec.envelope_b U (LockFixpointResolver.lock_world U dq0 S) = true /\
+  (forall j k', In j S -> In k' (LockFixpointResolver.lock_universe U dq0) ->
+     admitted (LockFixpointResolver.lock_universe U dq0) (lock_entry_of (LockFixpointResolver.cand_at U dq0 j)) k' ->
+     k' = LockFixpointResolver.cand_at U dq0 j) /\
+  (forall scheds' S', Resolver.resolve U (LockFixpointResolver.lock_world U dq0 S) dq0 scheds' = Ok S' ->
+     forall j, In j S' <-> In j S).
 Proof. exact LockFixpointResolver.fixpoint_resolver_partial_lemma. Qed.
 Print Assumptions c09_fixpoint_resolver_partial.
 
@@ -213,9 +213,10 @@ Print Assumptions c09_fixpoint_resolver_partial.
    by the corpora of the c02 and c09 harnesses): a -> b, c; c -> !b; world [a].
    The conflict entry of c is applied when c is expanded, after b was chosen
    for a: the result [b c a] is closed, every member answers its own entry
-   (hypothesis (i) of c09_fixpoint_partial), and its lock
-   [b=1.0 c=1.0 a=1.0] fails to resolve in every order of its entries, for
-   every schedule. *)
+   (hypothesis (i) of c09_fixpoint_partial), and its lock fails to resolve, for
+   every schedule, in the order of the result [b=1.0 c=1.0 a=1.0], in sorted
+   order [a=1.0 b=1.0 c=1.0] (what lock.go writes) and in five of the six
+   orders of its entries (only [b a c] replays the origin). *)
 Theorem c09_fixpoint_resolver_refuted :
   let U := LockFixpointResolver.U_conflict in let W := ["a"] in let S := [1; 2; 0]%nat in
   ResolveSpec.envelope_b U W = true /\ Resolver.resolve U W [] [] = Ok S /\
@@ -224,8 +225,11 @@ Theorem c09_fixpoint_resolver_refuted :
   (forall j, In j S -> admitted (LockFixpointResolver.lock_universe U [])
                                 (lock_entry_of (LockFixpointResolver.cand_at U [] j)) (LockFixpointResolver.cand_at U [] j)) /\
   LockFixpointResolver.lock_world U [] S = ["b=1.0"; "c=1.0"; "a=1.0"] /\
-  Forall (fun L => forall scheds, Resolver.resolve U L [] scheds = Err)
-         (LockFixpointResolver.all_orders (LockFixpointResolver.lock_world U [] S)).
+  forall scheds,
+    Resolver.resolve U (LockFixpointResolver.lock_world U [] S) [] scheds = Err /\
+    Resolver.resolve U ["a=1.0"; "b=1.0"; "c=1.0"] [] scheds = Err /\
+    List.map (fun L => Resolver.resolve U L [] scheds) (LockFixpointResolver.all_orders (LockFixpointResolver.lock_world U [] S))
+      = [Err; Err; Err; Ok S; Err; Err].
 Proof. exact LockFixpointResolver.fixpoint_finds_locked_refuted. Qed.
 Print Assumptions c09_fixpoint_resolver_refuted.
 
